@@ -281,10 +281,14 @@ func typeList(names []string) []int {
 	return r
 }
 
+// The facts about package sessions come in three sections, so that a rewrite of one function that the
+// extractor no longer recognises concerns only the properties that use THAT function's table.
 func factsSessions(repo string, o *out) {
 	fs := parse(repo, "sessions/session.go")
 	o.def("defaultQueueSize", "Nat", strconv.FormatInt(constInt(fs, "defaultQueueSize"), 10))
+}
 
+func factsSessionsAck(repo string, o *out) {
 	fa := parse(repo, "sessions/ackqueue.go")
 	// Ack: switch msg.Type() { case <id types>: …; case PINGRESP: …; default: error }
 	ack := findFunc(fa, "Ackqueue", "Ack")
@@ -294,10 +298,13 @@ func factsSessions(repo string, o *out) {
 	}
 	o.def("ackIdTypes", "List Nat", natList(typeList(cs[0])))
 	o.def("ackPingType", "Nat", strconv.Itoa(typeList(cs[1])[0]))
+}
 
+func factsSessionsAcked(repo string, o *out) {
+	fa := parse(repo, "sessions/ackqueue.go")
 	// Acked: switch aq.ring[aq.head].State { case <release set>: …; default: break }
 	acked := findFunc(fa, "Ackqueue", "Acked")
-	cs = switchCases(acked, func(sw *ast.SwitchStmt) bool {
+	cs := switchCases(acked, func(sw *ast.SwitchStmt) bool {
 		return sw.Tag != nil && exprString(sw.Tag) == "aq.ring[aq.head].State"
 	})
 	if len(cs) != 2 || len(cs[1]) != 0 {
